@@ -225,6 +225,16 @@ impl Profile {
                 p.w_clear = 1;
                 p.w_probe = 0;
             }
+            "C17" => {
+                p.name = "C17";
+                p.w_set = 3;
+                p.w_clear = 1;
+                p.w_reserve = 1;
+                p.w_churn = 1;
+                p.w_probe = 2;
+                p.s_removed = 12;
+                p.deep = DeepCfg { traversals: true, dei: true, lookups: true, drain: true, pairs: false, unary: false, max_cand: 6, dei_exh_bits: 6, dei_sampled: 4, at_end: true };
+            }
             // general-purpose profile: everything on (fuzz target, C16/C17 batteries)
             "ALL" => {
                 p.name = "ALL";
